@@ -130,6 +130,8 @@ void runForEachT(Case& c, dispenso::ThreadPool& pool, Cont& cont, long cnt, long
   int lim = (int)std::max<uint32_t>(1, o.maxThreads > 1000000 ? 1000000 : o.maxThreads);
   if (c.p.i("checkMaxT", 0) && log.maxInBody.load() > lim)
     c.fail("maxThreads-exceeded", std::to_string(log.maxInBody.load()) + " concurrent applications with maxThreads=" + std::to_string(o.maxThreads));
+  if (c.p.i("checkMaxT", 0) && o.maxThreads <= 1 && __builtin_popcount(log.threads.load()) > 1)
+    c.fail("maxThreads-serial-multi-thread", "maxThreads<=1 but applications ran on " + std::to_string(__builtin_popcount(log.threads.load())) + " threads");
 }
 
 void runC15(Case& c) {
@@ -166,6 +168,9 @@ void runC15(Case& c) {
   unsigned th = log.threads.load();
   bool multi = cnt >= 2 && __builtin_popcount(th) >= 2;
   long maxT = c.p.i("maxT");
+  c.sample = "threads=" + std::to_string(__builtin_popcount(th)) + " maxConc=" + std::to_string(log.maxInBody.load()) + " ";
+  if (log.maxInBody.load() >= 2)
+    c.cls("bodies_overlapped");
   c.nontrivial = multi || n == 0 || maxT <= 1;
   if (multi)
     c.cls("applied_on>=2_threads");
@@ -173,6 +178,26 @@ void runC15(Case& c) {
     c.cls("zero_thread_pool");
   if (maxT <= 1)
     c.cls("maxThreads<=1");
+}
+
+// C48 for for_each: same programs, maxThreads in 0..n+1, concurrency monitor armed
+void genC48fe(Rng& r, KV& kv, bool e1) {
+  genC15(r, kv, e1);
+  kv.set("maxT", r.range(0, kv.i("n") + 1));
+  kv.set("checkMaxT", 1L);
+  kv.set("burn", e1 ? r.range(2, 8) : r.pick<long>({50, 400, 2000}));
+  if (kv.i("cnt") < 4)
+    kv.set("cnt", r.range(4, e1 ? 24 : 300));
+}
+void genC48fen(Rng& r, KV& kv, const Opts&) {
+  genC48fe(r, kv, false);
+}
+void genC48fee(Rng& r, KV& kv, const Opts&) {
+  genC48fe(r, kv, true);
+}
+void runC48fe(Case& c) {
+  runC15(c);
+  c.nontrivial = c.sample.find("maxConc=1 ") == std::string::npos || c.p.i("maxT") <= 1;
 }
 
 // ---------------------------------------------------------------------------------------------
